@@ -32,6 +32,29 @@ def perms_for_ops(spos, L, rots, trans, tol=1e-4):
     return np.array(out)
 
 
+def own_magnetic_ops(cell, moments, symprec=1e-5):
+    """Operations of the magnetic space group (with and without time reversal) selected from the raw space-group search by their
+    action on the moments: collinear moments (scalars) are carried along unchanged by every rotation, non-collinear ones (Cartesian
+    axial vectors) turn as det(R) R m; time reversal flips all of them. An operation stays when it maps the moment of every atom
+    onto that of its image, or onto minus that of its image for all atoms at once."""
+    rots, trans = own_ops(cell, symprec)
+    m = np.asarray(moments, dtype=float)
+    L = np.array(cell.cell, dtype=float)
+    P = perms_for_ops(cell.scaled_positions, L, rots, trans)
+    keep = []
+    for k, (r, p) in enumerate(zip(rots, P)):
+        if m.ndim == 1:
+            tm = m
+        else:
+            Rc = cart_rot(L, r)
+            tm = np.linalg.det(Rc) * (m @ Rc.T)
+        img = m[p]
+        scale = max(1e-12, float(np.abs(m).max()))
+        if np.abs(img - tm).max() < 1e-6 * scale or np.abs(img + tm).max() < 1e-6 * scale:
+            keep.append(k)
+    return rots[keep], trans[keep]
+
+
 def cart_rot(L, r):
     """Cartesian matrix of a rotation given in fractional coordinates of lattice L (rows)."""
     return L.T @ r @ np.linalg.inv(L).T
@@ -45,7 +68,7 @@ def group_average_fc(fc, L, rots, perms):
     return acc / len(rots)
 
 
-def dense_fc(scell, rng, asr=True, perm_sym=True, space_group=True):
+def dense_fc(scell, rng, asr=True, perm_sym=True, space_group=True, ops=None):
     """Random dense supercell force constants projected onto space group x
     index permutation x both sum rules (the projectors commute)."""
     L = scell.cell
@@ -54,7 +77,7 @@ def dense_fc(scell, rng, asr=True, perm_sym=True, space_group=True):
     fc = rng.normal(size=(n, n, 3, 3))
     nops = 1
     if space_group:
-        rots, trans = own_ops(scell)
+        rots, trans = own_ops(scell) if ops is None else ops
         if space_group == "translations":
             sel = [k for k in range(len(rots)) if np.array_equal(rots[k], np.eye(3, dtype=int))]
             rots, trans = rots[sel], trans[sel]
